@@ -401,10 +401,10 @@ fn p_build_inner(prefill: usize, hist: &[POp]) -> Result<Vec<usize>, (String, St
         unions: vec![],
     };
     let mut addrs: Addrs = HashMap::new();
-    // start states >= 10 000: the same pre-fill, and the alphabet's package names are interned already
+    // start states >= 1 000 000: the same pre-fill, and the alphabet's package names are interned already
     // (so that version-set / solvable operations on two different names fit into short histories)
-    let names_first = prefill >= 10_000;
-    let prefill = prefill % 10_000;
+    let names_first = prefill >= 1_000_000;
+    let prefill = prefill % 1_000_000;
     // prefill every arena with `prefill` junk items
     for i in 0..prefill {
         let n = format!("junk{i}");
@@ -579,7 +579,7 @@ pub fn run_c18(ctx: &Ctx) -> i32 {
     ops.push(POp::Union(8));
     ops.push(POp::Union(7));
     // 128 + {3,4,7,8,15,16,..}: a chunk that was not pre-sized would reallocate right after these sizes
-    let prefills: Vec<usize> = vec![0, 126, 127, 128, 131, 132, 135, 136, 143, 144, 159, 160, 191, 192, 255, 256, 10_000, 10_125, 10_127];
+    let prefills: Vec<usize> = vec![0, 126, 127, 128, 131, 132, 135, 136, 143, 144, 159, 160, 191, 192, 255, 256, 1_000_000, 1_000_125, 1_000_127];
     let results: Vec<(Acc, u64, u64)> = std::thread::scope(|sc| {
         let hs: Vec<_> = prefills
             .iter()
@@ -637,7 +637,7 @@ pub fn run_c18(ctx: &Ctx) -> i32 {
     let full_depth = if q { 4 } else { 5 };
     let full_results: Vec<Acc> = std::thread::scope(|sc| {
         let mut hs = vec![];
-        for pf in [0usize, 127, 10_000] {
+        for pf in [0usize, 127, 1_000_000] {
             for (fi, first) in ops.iter().enumerate() {
                 let ops = ops.clone();
                 let first = *first;
@@ -668,6 +668,35 @@ pub fn run_c18(ctx: &Ctx) -> i32 {
     let mut full_acc = Acc::default();
     for a in full_results {
         full_acc.merge(a);
+    }
+    // 128 chunks of 128 elements: the next boundary of the chunked arenas. Every sequence of length 2
+    // from pools holding 128 * 128 - 1 items of every kind (the sequences cross item 16 384).
+    {
+        let big: Vec<Acc> = std::thread::scope(|sc| {
+            let mut hs = vec![];
+            for (fi, first) in ops.iter().enumerate() {
+                let ops = ops.clone();
+                let first = *first;
+                hs.push(sc.spawn(move || {
+                    let mut acc = Acc::default();
+                    let pf = 128 * 128 - 1 + 1_000_000;
+                    for second in &ops {
+                        let h = vec![first, *second];
+                        acc.evaluations += 1;
+                        if let Err((sig, what)) = p_build(pf, &h) {
+                            acc.violation(viol("C18", &sig, format!("{what} (prefill 16383 items per arena, history {h:?})"), json!({"kind": "c18", "prefill": pf, "history": h}), (200, fi as u64, 0)));
+                            return acc;
+                        }
+                    }
+                    acc.add("sequences_from_16383_items", acc.evaluations);
+                    acc
+                }));
+            }
+            hs.into_iter().map(|h| h.join().unwrap()).collect()
+        });
+        for a in big {
+            full_acc.merge(a);
+        }
     }
     let full_n = full_acc.evaluations;
     full_acc.finalize();
